@@ -642,8 +642,11 @@ impl KalmanFilter {
                 target - self.running_filter.freq_offset() * 1e6,
                 self.config.max_freq_offset,
             );
-            if let Ok(time) = clock.set_frequency(cur_frequency + error_ppm) {
-                self.cur_frequency = Some(cur_frequency + error_ppm);
+            // rounding in cur_frequency + error_ppm can overshoot the bound by an ulp
+            let new_frequency = (cur_frequency + error_ppm)
+                .clamp(-self.config.max_freq_offset, self.config.max_freq_offset);
+            if let Ok(time) = clock.set_frequency(new_frequency) {
+                self.cur_frequency = Some(new_frequency);
                 self.running_filter.absorb_frequency_steer(
                     error_ppm,
                     time,
